@@ -18,7 +18,11 @@ from mc.report import Result, Violation
 PROPERTY = "C14"
 
 A14 = ["CCO", "CC=O", "CC(=O)O", "O", "CCCl", "[H][H]", "Cl", "CC(C)=O", "CC(C)O", "OO",
-       "[Na]Cl", "CN", "CC(=O)[O-]", "[Na+]", "O=[N+]([O-])c1ccccc1", "c1ccncc1", "CC(Cl)=O", "CNC(C)=O"]
+       "[Na]Cl", "CN", "CC(=O)[O-]", "[Na+]", "O=[N+]([O-])c1ccccc1", "c1ccncc1", "CC(Cl)=O", "CNC(C)=O",
+       "[NH3+]CC(=O)[O-]", "NCC(=O)O", "[O-][N+](=O)c1ccc(cc1)[N+](=O)[O-]"]
+
+MARKER_LEFT = ["CC(=O)OO", "CCO", "CC=O", "CCCl", "CC(=O)OO.[Na]Cl"]
+MARKER_RIGHT = ["CC(=O)O", "OO", "[H][H]", "O", "CC=O", "CC", "[Na]O"]
 
 _VOCAB = None
 
@@ -74,7 +78,11 @@ def template_labelled(add):
     return any(k in voc for side in add for k in side)
 
 
-def variants(rx, max_perm_atoms=4):
+PERM_ATOMS = [4]
+
+
+def variants(rx, max_perm_atoms=None):
+    max_perm_atoms = PERM_ATOMS[0] if max_perm_atoms is None else max_perm_atoms
     left, right = [s.split(".") for s in rx.split(">>")]
     mols = left + right
     nl = len(left)
@@ -132,6 +140,8 @@ def compare(rx, base, var_rx, row):
 
 
 def job(rx):
+    if isinstance(rx, (list, tuple)):
+        rx, PERM_ATOMS[0] = rx[0], rx[1]
     base = pipeline.run({"rxns": [rx]})
     if not base["rows"]:
         return {"n": 0, "cd": False, "bad": [{"key": ["row-count"], "what": "no row for " + rx, "var": rx}]}
@@ -162,7 +172,11 @@ def run(tier, seed):
     if tier == "quick":
         # the complete one-molecule-per-side universe over the full alphabet as well
         rxns = pf.dedupe(rxns + universe.Rxn(A14, 1))
-    r = pmap("checks.c14:job", rxns, chunk=8, seed=seed, timeout=7200)
+    # marker family: molecules that spell like the pipeline's placeholders on the product side
+    # next to a reactant-side or product-side completion
+    rxns = pf.dedupe(rxns + [l + ">>" + a + "." + b for l in MARKER_LEFT for a in MARKER_RIGHT for b in MARKER_RIGHT])
+    perm = 4 if tier == "thorough" else 3
+    r = pmap("checks.c14:job", [(x, perm) for x in rxns], chunk=8, seed=seed, timeout=7200)
     n_cd = n_var = 0
     by = {}
     for rx, x in zip(rxns, r):
@@ -175,13 +189,13 @@ def run(tier, seed):
     res.coverage = {
         "evaluations": len(rxns) + n_var,
         "distinct_nontrivial": n_var,
-        "rule": "all {} reactions of Rxn(A14{},2){}; for each of the {} with a composition-determined baseline "
+        "rule": "all {} reactions of Rxn(A14{},2){} and of a marker family (peracid / alcohol / aldehyde / chloride >> every ordered pair of 7 product molecules incl. OO, [H][H], O); for each of the {} with a composition-determined baseline "
                 "(input-balanced or rule-based) every variant of its spelling/order family is run: rooted, all atom "
-                "permutations (<=4 heavy atoms), kekulised, explicit-H and three atom-mapped spellings of one molecule "
+                "permutations (<= {} heavy atoms), kekulised, explicit-H and three atom-mapped spellings of one molecule "
                 "at a time, k-th spelling of all at once, all permutations of each side.  Non-trivial = distinct "
                 "variants whose text differs from the baseline reaction.".format(
                     len(rxns), "" if tier == "thorough" else "[:8]",
-                    "" if tier == "thorough" else " + Rxn(A14,1)", n_cd),
+                    "" if tier == "thorough" else " + Rxn(A14,1)", n_cd, perm),
         "samples": [rxns[5], sorted(variants("CCCl.[H][H]>>CC"))[:6]],
         "composition_determined": n_cd,
         "baseline_by_method": by,
